@@ -49,7 +49,9 @@ EXTENDS Quadtree, Integers, TLC
 
 CONSTANTS T,        \* tile edge in abstract pixels (a power of two)
           Depth,    \* start level of the cascade (level of the leaves)
-          Cases     \* set of case records, see CaseOK
+          Cases,    \* set of case records, see CaseOK
+          Window    \* exploration bound: only the first Window ready positions (in walk order) may run next;
+                    \* Window >= 4^(Depth-1) is no restriction at all (every children-first order is explored)
 
 Modes == {"Float", "Int", "Colour"}
 NCh(mode) == IF mode = "Colour" THEN 4 ELSE 1
@@ -209,7 +211,9 @@ Init == /\ c \in Cases
         /\ done = {}
 
 \* the walk's guarantee: children's callbacks complete first (live children only; leaves have no callback)
-Ready(p) == p \in Ops(c) \ done /\ \A k \in Kids(p) : k \in Ops(c) => k \in done
+ReadySet == {p \in Ops(c) \ done : \A k \in Kids(p) : k \in Ops(c) => k \in done}
+WalkIndex(p) == IndexOf(GeneratePos(Depth), p)
+Ready(p) == p \in ReadySet /\ Cardinality({q \in ReadySet : WalkIndex(q) < WalkIndex(p)}) < Window
 KidTiles(p) == <<pyr[Kid(p, 0)], pyr[Kid(p, 1)], pyr[Kid(p, 2)], pyr[Kid(p, 3)]>>
 Merge(p) == /\ Ready(p)
             /\ pyr' = [pyr EXCEPT ![p] = MergeTile(c.mode, c.bottomup, c.ranged, KidTiles(p), pyr[p])]
